@@ -57,6 +57,10 @@ def point(pubkey_: bytes) -> typing.Tuple[int]:
     version = pubkey_[0]
     payload = pubkey_[1:]
     x = int.from_bytes(payload[:32], "big")
+    if version in (2, 3):
+        assert len(pubkey_) == 33, "invalid pubkey length for compressed prefix"
+    elif version == 4:
+        assert len(pubkey_) == 65, "invalid pubkey length for uncompressed prefix"
     if version == 2:
         # compressed, y even
         y = [i for i in bits.ecmath.y_from_x(x) if not i % 2][0]
